@@ -787,6 +787,10 @@ def matrix_inverse_pth_root(
   # Only used in lobpcg branches, but required by pytype.
   eigvals, eigvecs, lobpcg_diagnostics = None, None, None
   if lobpcg_topk_precondition > 0:
+    if matrix_size < lobpcg_topk_precondition:
+      raise ValueError(
+          f"lobpcg_topk_precondition ({lobpcg_topk_precondition}) exceeds the "
+          f"size of the statistics matrices ({matrix_size})")
     # TODO(vladf): reuse previous top-k as the initial search directions
     pad_shape = (matrix_size - lobpcg_topk_precondition,
                  lobpcg_topk_precondition)
